@@ -2006,7 +2006,7 @@ fn plan_fee_auth(w: &World, actor: &mut Actor, _l: &Ledger) -> Vec<(Tx, String)>
             "set_fee_rate".to_string(),
         ));
     } else {
-        let r = *rng.pick(&[0u16, 1, 300, 1000, 2499, 2500, 2501, 10000]);
+        let r = *rng.pick(&[0u16, 1, 300, 1000, 2499, 2500, 2501, 10000, 10001, 25000, 65535]);
         flow.push((
             tx1(ix::set_protocol_fee_rate(&w.config, &pi.keys.whirlpool, &actor.wallet, r)),
             "set_protocol_fee_rate".to_string(),
